@@ -177,6 +177,48 @@ def run(ctx):
             ctx.ob('T15.neg', mem.fq, 'a negative `%s` is brought into range by adding a length (a `%s < 0` test whose branch does so)'
                    % (pn, pn), bool(fixes), loc=loc(mem, tests[0]) if tests else mem.loc,
                    detail='%d test(s) `%s < 0`, %d with the addition' % (len(tests), pn, len(fixes)))
+    # T9.stalelen: _cull trims trailing tombstones and retires the dead interval that covered them; the interval is recognised by
+    # its stop being the length of the slot list *before* the trim.  On every path the length compared with the interval's stop
+    # is the untrimmed one: read before the `del items[-n:]`, or read after it and corrected by + n.
+    cu = prog.func(CLS + '._cull')
+    w, paths = paths_of(prog, cu, recv=ci)
+    n_cmp = 0
+    for p in paths:
+        dels = [o for o in p.ops if o.kind == 'sub_del' and isinstance(o.val, ast.Subscript) and txt(o.val.value) == 'self.item_list'
+                and isinstance(o.val.slice, ast.Slice) and o.val.slice.upper is None and
+                isinstance(o.val.slice.lower, ast.UnaryOp) and isinstance(o.val.slice.lower.op, ast.USub)]
+        lens = {}
+        for nm, info in w.tokens.items():
+            if info[0] == 'call' and len(info) > 2 and isinstance(info[2].val, ast.Call) and txt(info[2].val) == 'len(self.item_list)':
+                lens[nm] = info[2]
+        for o in p.ops:
+            if o.kind != 'compare' or not isinstance(o.val, ast.Compare) or len(o.val.ops) != 1 or \
+                    not isinstance(o.val.ops[0], (ast.Eq, ast.NotEq)):
+                continue
+            sides = [o.val.left, o.val.comparators[0]]
+            stop = [x for x in sides if 'self.dead_indices[' in txt(x) and txt(x).endswith('[1]')]
+            other = [x for x in sides if x not in stop]
+            if len(stop) != 1 or len(other) != 1:
+                continue
+            toks = [x.id for x in ast.walk(other[0]) if isinstance(x, ast.Name) and x.id in lens]
+            if len(toks) != 1:
+                continue
+            n_cmp += 1
+            before = [d for d in dels if d.seq < lens[toks[0]].seq]
+            if not before:
+                ok = isinstance(other[0], ast.Name)
+                want = 'the plain length'
+            else:
+                n_txt = txt(before[0].val.slice.lower.operand)
+                e = other[0]
+                ok = isinstance(e, ast.BinOp) and isinstance(e.op, ast.Add) and \
+                    {txt(e.left), txt(e.right)} == {toks[0], n_txt}
+                want = 'length + %s (the slots already deleted)' % n_txt
+            ctx.ob('T9.stalelen', cu.fq, 'the stop of the last dead interval is compared with the untrimmed length of the slot list', ok,
+                   loc=loc(cu, o.node), detail='compared with `%s`; expected %s' % (txt(w.expand(other[0])), want),
+                   path=p.describe() if not ok else None)
+    if n_cmp == 0:
+        ctx.info('T9.stalelen: no comparison of a dead interval\'s stop with len(item_list) in _cull (nothing to check)')
     # T25.raw: the slot list holds the tombstone marker in removed-but-not-compacted slots; whoever enumerates it raw filters
     # the marker out (or has just rebuilt it tombstone-free with `item_list[:] = ...`), as __iter__/__reversed__ do
     n_raw = 0
